@@ -136,6 +136,8 @@ impl UdpWriteAdapter {
 
 impl Write for UdpWriteAdapter {
     fn write(&mut self, buf: &[u8]) -> io::Result<usize> {
+        #[cfg(cadence_verif)]
+        crate::verif::point("sink.write");
         self.stats.update(self.socket.send_to(buf, self.addr), buf.len())
     }
 
@@ -261,11 +263,15 @@ impl BufferedUdpMetricSink {
 impl MetricSink for BufferedUdpMetricSink {
     fn emit(&self, metric: &str) -> io::Result<usize> {
         let mut writer = self.buffer.lock().unwrap();
+        #[cfg(cadence_verif)]
+        let _scope = crate::verif::Scope::new("sink.cs.enter", "sink.cs.exit");
         writer.write(metric.as_bytes())
     }
 
     fn flush(&self) -> io::Result<()> {
         let mut writer = self.buffer.lock().unwrap();
+        #[cfg(cadence_verif)]
+        let _scope = crate::verif::Scope::new("sink.cs.enter", "sink.cs.exit");
         writer.flush()
     }
 
